@@ -1063,3 +1063,212 @@ Proof.
   - intros a l0 b os0 Ra _ H. eapply raw_step_ok; eauto. eapply reachf_inv; eauto.
   - intros a b os0 Ra H. eapply settle1_ok; eauto. eapply reachf_inv; eauto.
 Qed.
+
+(** * Wait-group accounting: wg = live reader + live dispatcher + released unfinished units *)
+Definition rd_live (r : rdpc) : nat := match r with RIdle | RHold _ => 1 | _ => 0 end.
+Definition dp_live (d : dppc) : nat := match d with DAtNext | DWaitWork | DAtBarrier _ | DBarrierWait _ => 1 | _ => 0 end.
+Definition unit_live (u : unit_) : bool := match u_st u with URunning | UAtDeliver => true | _ => false end.
+
+Record inv2 (s : state) : Prop := {
+  i_bar : forall u un, nth_error (units s) u = Some un -> u_st un = UAtBarrier \/ u_st un = UBarrierWait -> bar s u;
+  i_wg : wg s = rd_live (rd s) + dp_live (dp s) + countb unit_live (units s)
+}.
+
+Lemma inv2_same s s' : units s' = units s -> rd_live (rd s') = rd_live (rd s) -> dp s' = dp s -> wg s' = wg s ->
+  inv2 s -> inv2 s'.
+Proof.
+  intros U R D W [B G]. constructor; unfold bar in *; rewrite ?U, ?R, ?D, ?W; auto.
+Qed.
+
+(* labels that change only tasks, the semaphore, the reservations and bookkeeping *)
+Definition taskonly_label (l : label) : bool :=
+  match l with LGate _ _ | LRelAcquire _ | LRelHandled _ | LRelStop _ | LRelCancel _ => true | _ => false end.
+
+Lemma raw_taskonly s l s' os : inv s -> taskonly_label l = true -> step_raw s l = Some (s', os) ->
+  units s' = units s /\ rd s' = rd s /\ dp s' = dp s /\ wg s' = wg s.
+Proof.
+  intros I Tl H. destruct l; try discriminate Tl; unfold step_raw in H.
+  - destruct (find_idx _ 0 (tasks s)) as [k|]; [|discriminate].
+    destruct (nth_error (tasks s) k) as [t|]; [|discriminate]. injection H as <- <-. auto.
+  - destruct (nth_error (tasks s) k) as [t|]; [|discriminate].
+    destruct (t_st t); try discriminate.
+    destruct (negb (unit_running s t)); [discriminate|].
+    destruct (t_cancelled t); [injection H as <- <-; auto|].
+    destruct (sem_free s); [injection H as <- <-; auto|].
+    destruct (sem_wait s); [|injection H as <- <-; auto].
+    destruct (t_builtin t); injection H as <- <-; auto.
+  - destruct (nth_error (tasks s) k) as [t|] eqn:E; [|discriminate].
+    destruct (t_st t) eqn:St; try discriminate.
+    set (s1 := set_task k (fun t => t <| t_st := TDone (body_of_outcome t o) |>) s <| sem_free ::= S |>) in *.
+    assert (W1 : wait_ok s1).
+    { unfold wait_ok, s1; cbn. apply wait_ok_upd; [apply I|]. eapply wait_not_in; eauto; [apply I|congruence]. }
+    pose proof (grant_spec (S (length (sem_wait s1))) s1 [] W1) as G.
+    destruct (grant (S (length (sem_wait s1))) s1 []) as [s2 os2]. cbn [fst snd] in G.
+    destruct G as [_ _ _ (Eu & Ed & Er & Ew & _) _ _ _ _].
+    destruct (is_note t); [destruct (nbar s2)|]; injection H as <- <-; cbn; auto.
+  - destruct (find_op n (ops s)) as [[n0|n0 id|n0 w m p]|]; try discriminate.
+    destruct (stop_locked SCStop (s <| ops ::= del_op n |>)) as [s1 os1] eqn:St. injection H as <- <-.
+    apply stop_locked_spec in St as [(_ & -> & _)|(_ & _ & P)]; auto. destruct P. auto.
+  - destruct (find_op n (ops s)) as [[n0|n0 id|n0 w m p]|]; try discriminate.
+    injection H as <- <-. destruct (assoc id _); auto.
+    destruct (cancel_task_env n1 (s <| ops ::= del_op n |>)) as (Eu & Ed & Er & Ew & _). auto.
+Qed.
+
+Lemma countb_snoc {A} (p : A -> bool) l x : countb p (l ++ [x]) = countb p l + (if p x then 1 else 0).
+Proof. rewrite countb_app. cbn. lia. Qed.
+
+Lemma inv2_dequeue s : inv2 s -> dp s = DAtNext \/ dp s = DWaitWork -> inv2 (dequeue s).
+Proof.
+  intros [B G] D. 
+  assert (NoBar : forall u, ~ bar s u) by (intros u [Hb|Hb]; destruct D as [D|D]; congruence).
+  unfold dequeue. destruct (inq s) as [|[batch ms] q].
+  - destruct (running s); constructor; unfold bar; cbn.
+    + intros u un E Su. destruct (NoBar _ (B _ _ E Su)).
+    + rewrite G. destruct D as [-> | ->]; auto.
+    + intros u un E Su. destruct (NoBar _ (B _ _ E Su)).
+    + rewrite G. destruct D as [-> | ->]; cbn; lia.
+  - constructor; unfold bar; cbn.
+    + intros u un E Su. destruct (Nat.lt_ge_cases u (length (units s))) as [Lt|Ge].
+      * rewrite nth_error_app1 in E by auto. destruct (NoBar _ (B _ _ E Su)).
+      * assert (u = length (units s)); [|subst; auto].
+        apply nth_error_some_lt in E. rewrite app_length in E. cbn in E. lia.
+    + rewrite countb_snoc. cbn. rewrite G. destruct D as [-> | ->]; cbn; lia.
+Qed.
+
+Lemma countb_set_unit i x (l : list unit_) un : nth_error l i = Some un ->
+  countb unit_live (upd_nth i (fun y => y <| u_st := x |>) l) + (if unit_live un then 1 else 0) =
+  countb unit_live l + (match x with URunning | UAtDeliver => 1 | _ => 0 end).
+Proof.
+  intros E. rewrite (countb_upd_nth unit_live i (fun y => y <| u_st := x |>) l un E).
+  unfold unit_live at 2. cbn. destruct x; auto.
+Qed.
+
+Lemma inv2_raw s l s' os : inv s -> inv2 s -> step_raw s l = Some (s', os) -> inv2 s'.
+Proof.
+  intros I I2 H. destruct (frame_label l) eqn:Fl.
+  { apply step_raw_frame in H as [C _]; auto. unfold core in C. injection C as T U Us W F D R G Rn B.
+    eapply inv2_same; eauto. congruence. }
+  destruct (taskonly_label l) eqn:Tl.
+  { destruct (raw_taskonly _ _ _ _ I Tl H) as (U & R & D & W). eapply inv2_same; eauto. congruence. }
+  destruct l; try discriminate Fl; try discriminate Tl; unfold step_raw in H.
+  - (* LStart *)
+    destruct (negb (running s) && (wg s =? 0)) eqn:C; [|discriminate]. injection H as <- <-.
+    apply andb_true_iff in C as [_ C]. apply Nat.eqb_eq in C. destruct I2 as [B G].
+    rewrite C in G. constructor; unfold bar; cbn.
+    + intros u un E Su. destruct (B _ _ E Su) as [Hb|Hb]; rewrite Hb in G; cbn in G; lia.
+    + lia.
+  - (* LRelRead *)
+    destruct (rd s) as [| |f|] eqn:R; try discriminate. injection H as H.
+    destruct I2 as [B G]. rewrite R in G. cbn in G.
+    destruct f as [i|i|c].
+    3:{ cbn in H. destruct (stop_locked c s) as [s1 os1] eqn:St. injection H as <- <-.
+        assert (Q : units s1 = units s /\ dp s1 = dp s /\ wg s1 = wg s).
+        { apply stop_locked_spec in St as [(_ & -> & _)|(_ & _ & P)]; auto. destruct P; auto. }
+        destruct Q as (Qu & Qd & Qw). constructor; unfold bar; cbn; rewrite ?Qu, ?Qd, ?Qw; auto. lia. }
+    all: destruct (running s) eqn:Rn;
+      [ eapply read_cs_msg in H as (C & Ri & _); eauto; unfold core0 in C; injection C as T U Us W F D Gw Rn' Bn;
+        constructor; unfold bar; rewrite ?U, ?D, ?Gw, ?Ri; auto
+      | cbn in H; rewrite Rn in H; cbn in H; injection H as <- <-; constructor; unfold bar; cbn; auto; lia ].
+  - (* LRelNext *)
+    destruct (dp s) eqn:D; try discriminate. injection H as <- <-. apply inv2_dequeue; auto.
+  - (* LRelBarrier *)
+    destruct (dp s) eqn:D; try discriminate. injection H as <- <-. destruct I2 as [B G].
+    constructor; unfold bar in *; cbn.
+    + intros v un E Su. destruct (B _ _ E Su) as [Hb|Hb]; rewrite D in Hb; [injection Hb as <-; auto|discriminate].
+    + rewrite G, D. auto.
+  - (* LRelDeliver *)
+    destruct (nth_error (units s) u) as [un|] eqn:E; [|discriminate].
+    destruct (u_st un) eqn:Su; try discriminate.
+    destruct (release_ids_spec (unit_tasks s u) s) as [_ _ _ (Eu & Ed & Er & Ew & _) _ _ _].
+    set (s1 := release_ids (unit_tasks s u) s) in *. destruct I2 as [B G].
+    destruct (u_chok un); cbn in H; injection H as <- <-.
+    + constructor; unfold bar in *; cbn; rewrite ?Eu, ?Ed, ?Er, ?Ew.
+      * intros v un' E' Su'. rewrite nth_error_upd_nth in E'. destruct (Nat.eqb_spec u v) as [<-|N]; eauto.
+        rewrite E in E'. cbn in E'. injection E' as <-. cbn in Su'. destruct Su'; discriminate.
+      * pose proof (countb_set_unit u UFinished _ _ E) as Cn. unfold unit_live in Cn at 2. rewrite Su in Cn.
+        cbn in Cn. lia.
+    + constructor; unfold bar in *; cbn; rewrite ?Eu, ?Ed, ?Er, ?Ew; auto.
+Qed.
+
+Lemma inv2_settle s s' os : inv s -> inv2 s -> settle1 s = Some (s', os) -> inv2 s'.
+Proof.
+  intros I I2 H. apply settle1_inv in H. destruct H.
+  - destruct I2 as [B G]. constructor; unfold bar in *; cbn; auto. rewrite G, H. auto.
+  - apply inv2_dequeue; auto.
+  - destruct I2 as [B G]. destruct (i_dp _ I u (or_intror H)) as (un' & E' & S'). rewrite H1 in E'. injection E' as <-.
+    constructor; unfold bar in *; cbn.
+    + intros v un' E' Su'. rewrite nth_error_upd_nth in E'. destruct (Nat.eqb_spec u v) as [<-|N].
+      * rewrite H1 in E'. cbn in E'. injection E' as <-. cbn in Su'. destruct Su'; discriminate.
+      * destruct (B _ _ E' Su') as [Hb|Hb]; rewrite H in Hb; [discriminate|]. injection Hb as <-. congruence.
+    + pose proof (countb_set_unit u URunning _ _ H1) as Cn. unfold unit_live in Cn at 2. rewrite S' in Cn.
+      cbn in Cn. rewrite G, H. cbn. lia.
+  - apply find_unit_some in H as (un' & E' & C & _). rewrite Nat.sub_0_r, H0 in E'. injection E' as <-.
+    apply unit_complete_inv in C as [Su Fin]. destruct I2 as [B G].
+    constructor; unfold bar in *; cbn.
+    + intros v un' E' Su'. rewrite nth_error_upd_nth in E'. destruct (Nat.eqb_spec i v) as [<-|N]; eauto.
+      rewrite H0 in E'. cbn in E'. injection E' as <-. cbn in Su'. destruct Su'; discriminate.
+    + pose proof (countb_set_unit i UFinished _ _ H0) as Cn. unfold unit_live in Cn at 2. rewrite Su in Cn.
+      cbn in Cn. lia.
+  - apply find_unit_some in H as (un' & E' & C & _). rewrite Nat.sub_0_r, H0 in E'. injection E' as <-.
+    apply unit_complete_inv in C as [Su Fin]. destruct I2 as [B G].
+    constructor; unfold bar in *; cbn.
+    + intros v un' E' Su'. rewrite nth_error_upd_nth in E'. destruct (Nat.eqb_spec i v) as [<-|N]; eauto.
+      rewrite H0 in E'. cbn in E'. injection E' as <-. cbn in Su'. destruct Su'; discriminate.
+    + pose proof (countb_set_unit i UAtDeliver _ _ H0) as Cn. unfold unit_live in Cn at 2. rewrite Su in Cn.
+      cbn in Cn. lia.
+  - destruct I2 as [B G]. constructor; unfold bar in *; cbn; auto.
+  - destruct I2 as [B G]. constructor; unfold bar in *; cbn; auto.
+Qed.
+
+Theorem reachf_inv2 c s : reachf c s -> inv2 s.
+Proof.
+  induction 1.
+  - constructor; cbn; auto. intros [|u] un E; discriminate.
+  - eapply inv2_raw; eauto. eapply reachf_inv; eauto.
+  - eapply inv2_settle; eauto. eapply reachf_inv; eauto.
+Qed.
+
+(* consequence used for restart: an idle wait group means every unit has finished *)
+Lemma wg0_all_finished s : inv2 s -> wg s = 0 -> forall u un, nth_error (units s) u = Some un -> u_st un = UFinished.
+Proof.
+  intros [B G] Z u un E. rewrite Z in G.
+  assert (C0 : countb unit_live (units s) = 0) by lia.
+  rewrite countb_zero_forall in C0. specialize (C0 un (nth_error_In _ _ E)). unfold unit_live in C0.
+  destruct (u_st un) eqn:Su; auto; try discriminate.
+  all: destruct (B _ _ E) as [Hb|Hb]; auto; rewrite Hb in G; cbn in G; lia.
+Qed.
+
+(** * The structure lemmas in their reachable-state form *)
+Lemma task_unit_bound c s k t : reachf c s -> nth_error (tasks s) k = Some t -> t_unit t < length (units s).
+Proof. intros R. apply (i_unit _ (reachf_inv _ _ R)). Qed.
+
+Lemma task_pre_skip c s k t e : reachf c s -> nth_error (tasks s) k = Some t -> t_pre t = Some e -> t_st t = TSkip.
+Proof. intros R E. destruct (i_pre _ (reachf_inv _ _ R) _ _ E) as [P _]. apply P. Qed.
+
+Lemma task_nopre_noskip c s k t : reachf c s -> nth_error (tasks s) k = Some t -> t_pre t = None -> t_st t <> TSkip.
+Proof. intros R E. destruct (i_pre _ (reachf_inv _ _ R) _ _ E) as [_ P]. intros H Z. apply P; auto. Qed.
+
+Lemma unit_done_all_finished c s u un : reachf c s -> nth_error (units s) u = Some un ->
+  u_st un = UAtDeliver \/ u_st un = UFinished -> all_finished s u = true.
+Proof. intros R. apply (i_fin _ (reachf_inv _ _ R)). Qed.
+
+Lemma sem_wait_waiting c s k : reachf c s -> In k (sem_wait s) ->
+  exists t, nth_error (tasks s) k = Some t /\ t_st t = TWaiting.
+Proof. intros R. apply (i_wait _ (reachf_inv _ _ R)). Qed.
+
+(* along a trace: the task at index k stays at index k, keeps its immutable fields, and its status only grows *)
+Lemma run_task_le c tr s s' oss k t : reachf c s -> run s tr = Some (s', oss) -> nth_error (tasks s) k = Some t ->
+  exists t', nth_error (tasks s') k = Some t' /\ task_le t t'.
+Proof. intros R H E. destruct (run_ext _ _ _ _ _ R H) as [X _]. apply (X _ _ E). Qed.
+
+Lemma run_unit_le c tr s s' oss u un : reachf c s -> run s tr = Some (s', oss) -> nth_error (units s) u = Some un ->
+  exists un', nth_error (units s') u = Some un' /\ unit_le un un'.
+Proof. intros R H E. destruct (run_ext _ _ _ _ _ R H) as [_ X]. apply (X _ _ E). Qed.
+
+Lemma step_task_le c s l s' os k t : reachf c s -> step s l = Some (s', os) -> nth_error (tasks s) k = Some t ->
+  exists t', nth_error (tasks s') k = Some t' /\ task_le t t'.
+Proof. intros R H E. destruct (step_ext _ _ _ _ _ R H) as [X _]. apply (X _ _ E). Qed.
+
+Lemma step_unit_le c s l s' os u un : reachf c s -> step s l = Some (s', os) -> nth_error (units s) u = Some un ->
+  exists un', nth_error (units s') u = Some un' /\ unit_le un un'.
+Proof. intros R H E. destruct (step_ext _ _ _ _ _ R H) as [_ X]. apply (X _ _ E). Qed.
